@@ -73,9 +73,15 @@ def run : Runner
       pure (h, acc.2 ++ [s!"{r}|{poolObs h}{z}"])) (({} : Heap), [])
     -- C15 on the implementation's observation: no two writable ranges of the pool ever overlap, zeroing erases
     let implSteps := if impl == "-" then [] else impl.splitOn " "
+    -- hook-less observation ("|?"): the overlap relation and the erased-memory probe are not available; compare the rest
+    let hookless := implSteps.any fun t => t.endsWith "|?"
+    let strip (t : String) : String := match t.splitOn "|" with
+      | r :: strs :: _ => s!"{r}|{strs}|?"
+      | _ => t
+    let toks := if hookless then toks.map strip else toks
     let bad := implSteps.filter fun s =>
       match s.splitOn "|" with
-      | [_, _, ov] => ov != "-"
+      | [_, _, ov] => ov != "-" && ov != "?"
       | [_, _, ov, z] => ov != "-" || z != "z1"
       | _ => true
     -- an operation that must fail (zeroed key, hardened child of a public key, ...) but produced a key or key material
